@@ -8,6 +8,8 @@ NOTE = "Trusts rustc/cargo, nalgebra/simba/num-traits, glibc libm within a few u
 CHECKS = {
  "C01": ("Every interface function x every dual number type of the universe (f32/f64, static, dynamic, nested) x the domain grid x every presence pattern x the full tensor grid of derivative-part values is executed on the real code and compared part by part with the reference algebra over double-double (ODE-generated Taylor coefficients) within kappa*u*(sum of contributing term magnitudes). Agreement on the full tensor grid decides the structure of every chain rule for all operand parts.", TECH, "DESIGN 4 C01"),
  "C02": ("Exhaustive enumeration, on the real code, of every arithmetic operation x every dual number type x every presence pattern x the full dyadic tensor grid of operand parts (degree+1 values per part), each compared part by part with an exact rational reference algebra; by the grid lemma agreement on the tensor grid decides the polynomial identity for all operand parts.", TECH, "DESIGN 4 C02"),
+ "C03": ("Breadth-first exploration of all straight-line programs (length <= 2 over a 66-operation alphabet; thorough: length 3 over the family alphabet) on registers with re-use (DAGs), executed in lock-step on the real types and in the reference algebra, every intermediate value compared in every derivative part within the propagated first-order rounding bound; states (register files) de-duplicated by canonical hash.", TECH_BFS, "DESIGN 4 C03"),
+ "C04": ("All programs of length <= 2 over the family alphabet are evaluated through every route (dual number type x seeding) of the universe - third order: Dual3, triply nested Dual, HyperHyperDual, Dual<Dual2>, Dual2<Dual>; second order: Dual2, Dual2Vec, HyperDual, HyperDualVec, Dual<Dual>; vector types n = 1..6 static and dynamic; f32 - and every pair of routes exposing the same partial derivative is compared (differential oracle, reference values not used); plus the compile-time NDERIV table of all 584 nestings up to depth 3.", TECH_BFS, "DESIGN 4 C04"),
  "C07": ("Abstraction alpha (absent -> zeros). Depth 1: 53 operations x alpha-operand tuples x ALL 2^k absent/explicit-zero encodings on the real vector types; histories: breadth-first exploration of sequences (quick 3, thorough 4) of 13 accumulator updates from every encoding, states = alpha-classes with the set of concrete encodings reaching them, de-duplicated by canonical hash. Oracle: bisimulation (alpha(result) identical for all encodings) plus exact rational reference where no rounding can occur.", TECH_BFS, "DESIGN 4 C07"),
  "C09": ("powi for every integer exponent in [-2050,2050] plus all powers of two +-1 up to 2^30 and the i32 overflow thresholds, on bases +-(1+-2^-j); powf for 0,1,2,3,4, half-integers, negative, large exponents and both float neighbours of 1,2,3; powd on the full tensor grid of dual exponents; each executed on the real types and compared with generalized-binomial jets in double-double; the three power functions, repeated multiplication/division and exp(n ln x) are evaluated at the same operands (mutual agreement through the common reference).", TECH, "DESIGN 4 C09"),
  "C10": ("Every enumerated removable/special point (powers at zero, Bessel and spherical Bessel at zero and around their switches, atan2 on both axes, exp_m1/ln_1p at zero, with float neighbours and denormals) x every type x every presence pattern x the tensor grid of derivative parts is executed on the real code; every part must be finite and equal the Maclaurin/limit value of the reference within tolerance.", TECH, "DESIGN 4 C10"),
